@@ -367,6 +367,18 @@ func (p *propC05) Check(sc *Scenario, st *Stats) []Violation {
 				if !set {
 					fv = invalidCanon(pf)
 				}
+				if onWire && baseOf(pf.Base).String && !pf.Array {
+					// protocol: one NUL-terminated string, NUL padding behind it
+					z := false
+					for _, x := range raw {
+						if x == 0 {
+							z = true
+						} else if z {
+							bad("values/string-field-garbage-behind-terminator/"+t.Arch, "%s[%d].%s: bytes %x hold non-NUL bytes behind the terminator (an array-of-strings reading sees a second string)", prof.MesgName(g), i, pf.Name, raw)
+							return vs
+						}
+					}
+				}
 				a, b := fv, wv
 				if pf.Array && !baseOf(pf.Base).String {
 					if onWire && set && len(raw) > 0 && stripTrailingInvalid(pf, wv) != wv {
